@@ -368,27 +368,48 @@ def h_midi_export(c):
     c.assume(t > 0)
   _distinct_times(c, tts)
   tempos = [dict(time=t, qpm=qpms[i]) for i, t in enumerate(tts)]
+  # control changes / pitch bends on the notes' instrument (storage order
+  # swapped when they are the field under test); with `drop`, events later than
+  # `drop` seconds after the last note end are to be left out
+  drop = c.params.get('drop')
+  k_ev = n if which in ('control_changes', 'pitch_bends') else 0
+  ev_t = [c.real('ev%d_t' % i, 0) for i in range(k_ev)]
+  _distinct_times(c, ev_t)
+  evs = [dict(time=t, instrument=notes[0]['instrument'], program=0)
+         for t in ev_t]
+  for i, e in enumerate(evs):
+    if which == 'control_changes':
+      e.update(control_number=64, control_value=c.int('ev%d_v' % i, 0, 127))
+    else:
+      e.update(bend=c.int('ev%d_v' % i, -8192, 8191))
 
-  def build(order_notes, order_tempos):
+  def build(order_notes, order_tempos, order_evs):
     ns = c.pb.NoteSequence()
     ns.ticks_per_quarter = 256
     for i in order_notes:
       ns.notes.add(**notes[i])
     for i in order_tempos:
       ns.tempos.add(**tempos[i])
+    for i in order_evs:
+      getattr(ns, which).add(**evs[i])
     return ns
 
-  a = build(range(len(notes)), range(len(tempos)))
+  a = build(range(len(notes)), range(len(tempos)), range(k_ev))
   b = build(_order(len(notes), swap if which == 'notes' else None),
-            _order(len(tempos), swap if which == 'tempos' else None))
+            _order(len(tempos), swap if which == 'tempos' else None),
+            _order(k_ev, swap if k_ev else None))
 
   def run(ns):
-    pm = mio.note_sequence_to_pretty_midi(ns)
+    pm = mio.note_sequence_to_pretty_midi(
+        ns, drop_events_n_seconds_after_last_note=drop)
     times, q = pm.get_tempo_changes()
     insts = []
     for ins in pm.instruments:
       insts.append((ins.program, bool(ins.is_drum),
-                    [(m.pitch, m.velocity, m.start, m.end) for m in ins.notes]))
+                    [(m.pitch, m.velocity, m.start, m.end) for m in ins.notes] +
+                    [(-1, cc.value, cc.time, cc.number)
+                     for cc in ins.control_changes] +
+                    [(-2, pb_.pitch, pb_.time, 0) for pb_ in ins.pitch_bends]))
     return list(times), list(q), list(pm._tick_scales), insts
 
   ra, rb = _both(c, run, a, b)
@@ -401,7 +422,8 @@ def h_midi_export(c):
   c.check(len(ra[3]) == len(rb[3]), 'same number of instruments')
   for (pa, da, na), (pb_, db, nb) in zip(ra[3], rb[3]):
     c.check(pa == pb_ and da == db and bool(K.multiset_eq(
-        c, na, [(True, k) for k in nb])), 'same notes per instrument')
+        c, na, [(True, k) for k in nb])), 'same notes, control changes and '
+                                            'pitch bends per instrument')
 
 
 def h_frame_roll(c):
@@ -505,6 +527,8 @@ def jobs(tier):
   add('h_midi_export', field='notes', n=2, swap=0)
   add('h_midi_export', field='tempos', n=2, swap=0)
   add('h_midi_export', field='tempos', n=3, swap=1, budget=600)
+  add('h_midi_export', field='control_changes', n=2, swap=0, drop=1)
+  add('h_midi_export', field='pitch_bends', n=2, swap=0, drop=None)
   add('h_frame_roll', n=2, swap=0, fps=8, frames=4, budget=600)
   if deep:
     add('h_midi_export', field='notes', n=3, swap=1, budget=1800)
